@@ -232,9 +232,13 @@ func GenRandom(seed int64, n int) []Row {
 		case p < 4:
 			wire, a = "nonobject", map[string]any{}
 		}
+		backend := "sqlite"
+		if (hasDocKey(tool, "ids") || hasDocKey(tool, "items") || hasDocKey(tool, "preview_only") || hasDocKey(tool, "limit")) && rng.Intn(100) < 15 {
+			backend = "proxy"
+		}
 		b, _ := json.Marshal(a)
 		rows = append(rows, Row{ID: fmt.Sprintf("rnd-%d-%05d", seed, i), Tool: tool, Role: c.role, Mut: c.mut, Rc: c.rc, Principal: c.principal,
-			Actor: "absent", Shape: "random", Lab: Lab{Path: "none", Pid: "none", Actor: "absent", Mode: "none", Wire: wire}, ArgsTpl: string(b), Health: health})
+			Actor: "absent", Shape: "random", Lab: Lab{Path: "none", Pid: "none", Actor: "absent", Mode: "none", Wire: wire, Backend: backend}, ArgsTpl: string(b), Health: health})
 	}
 	return rows
 }
